@@ -1,6 +1,7 @@
 import GtfsVerif.Lemmas.RealtimeVeh
 import GtfsVerif.Lemmas.Decimal
 import GtfsVerif.Gen.Regex
+import GtfsVerif.Lemmas.Zone
 /-! # C02 — realtime parse transcribes every wire field faithfully, in the configured zone
 
 Model: `Gtfs.Rt.parse` on the decoded message (protobuf decoding is the model boundary; the
@@ -77,6 +78,73 @@ theorem C02_start_date_valid (y : Int) (m d : Nat) (hm1 : 1 ≤ m) (hm2 : m ≤ 
   simp only [h1, h2, Int.add_zero]
 
 theorem C02_start_date_absent : parseStartDate none = (false, 0) := rfl
+
+/-! ### the instant at which a start date is surfaced (`time.Date(y, m, d, 0,0,0,0, zone)`)
+
+`Zone.dateUnix` follows `time.Date`'s code over the zone's transition table (the table is exported
+from the implementation's own zone database; `Zone.Table.instant` is what the driver prints and the
+correspondence compares with `StartDate.Unix()` of the real result, for every zone of the run). -/
+
+/-- what the model surfaces for a start date inside the exported range is `time.Date`'s instant -/
+theorem C02_start_date_instant (zt : Zone.Table) (d : Int) (hc : zt.covers d = true) :
+    zt.instant d = some (Zone.dateUnix zt.zone d) := by
+  simp [Zone.Table.instant, hc]
+
+/-- **closed form of `time.Date`'s two look-ups** -/
+theorem C02_start_date_closed_form {z : Zone.Zone} (h : Zone.WF z) (d : Int) :
+    Zone.dateUnix z d = d * 86400 - Zone.offsetAt z (d * 86400 - Zone.offsetAt z (d * 86400)) :=
+  Zone.dateUnix_eq h d
+
+/-- **local midnight, fixed offsets (UTC included, the default when no zone is configured)**: a clock
+    in the zone reads 00:00:00 of the civil day at the surfaced instant – unconditionally -/
+theorem C02_start_date_midnight_fixed (o d : Int) :
+    Zone.wall (Zone.fixed o) (Zone.dateUnix (Zone.fixed o) d) = d * 86400 :=
+  Zone.wall_dateUnix_fixed o d
+
+theorem C02_start_date_midnight_utc (d : Int) : Zone.dateUnix Zone.utc d = d * 86400 := Zone.dateUnix_utc d
+
+/-- **local midnight, zones with transitions**: whenever `time.Date`'s second guess is consistent
+    (decidable; it fails only where the wall clock skips or straddles that midnight) -/
+theorem C02_start_date_midnight {z : Zone.Zone} (h : Zone.WF z) {d : Int} (hs : Zone.Settled z d) :
+    Zone.wall z (Zone.dateUnix z d) = d * 86400 :=
+  Zone.wall_dateUnix h hs
+
+/-- … which is guaranteed when no transition falls into the window the two look-ups can reach:
+    with offsets in `[lo, hi]`, the instants `[midnight − hi, midnight − lo]` and the midnight reading itself -/
+theorem C02_start_date_midnight_quiet {z : Zone.Zone} (h : Zone.WF z) {lo hi a b d : Int}
+    (hw : Zone.Within z lo hi) (hq : Zone.NoTransition z a b) (h1 : a ≤ d * 86400) (h2 : d * 86400 ≤ b)
+    (h3 : a ≤ d * 86400 - hi) (h4 : d * 86400 - lo ≤ b) :
+    Zone.wall z (Zone.dateUnix z d) = d * 86400 :=
+  Zone.wall_dateUnix h (Zone.settled_of_noTransition hw hq h1 h2 h3 h4)
+
+/-- comparing start dates as instants (`TripID.Less`) is comparing civil days, for every zone whose
+    offsets span less than a day -/
+theorem C02_start_date_order {z : Zone.Zone} (h : Zone.WF z) {lo hi : Int} (hw : Zone.Within z lo hi)
+    (hspan : hi - lo < 86400) {d d' : Int} :
+    (Zone.dateUnix z d < Zone.dateUnix z d' ↔ d < d') ∧ (Zone.dateUnix z d = Zone.dateUnix z d' ↔ d = d') := by
+  refine ⟨⟨fun hlt => ?_, Zone.dateUnix_strictMono h hw hspan⟩, ⟨Zone.dateUnix_inj h hw hspan, fun e => by rw [e]⟩⟩
+  rcases Int.lt_trichotomy d d' with h1 | h1 | h1
+  · exact h1
+  · rw [h1] at hlt; omega
+  · have := Zone.dateUnix_strictMono h hw hspan h1; omega
+
+/-- America/New_York around 2021 (from the tz database): EST until 2021-03-14 07:00 UTC, EDT until
+    2021-11-07 06:00 UTC -/
+def nyc2021 : Zone.Zone := { first := -18000, trans := [(1615705200, -14400), (1636264800, -18000)] }
+
+/-- non-vacuity: the table is well-formed, both offset-change days (18700 = 2021-03-14, 18938 = 2021-11-07)
+    are settled, and the surfaced instants are 05:00 UTC and 04:00 UTC -/
+example : Zone.WF nyc2021 ∧ Zone.Settled nyc2021 18700 ∧ Zone.Settled nyc2021 18938 ∧
+    Zone.dateUnix nyc2021 18700 = 1615698000 ∧ Zone.dateUnix nyc2021 18938 = 1636257600 ∧
+    Zone.Within nyc2021 (-18000) (-14400) := by decide
+
+/-- America/Havana 2021: clocks go from 00:00 to 01:00 on 2021-03-14 (05:00 UTC) -/
+def havana2021 : Zone.Zone := { first := -18000, trans := [(1615698000, -14400), (1636261200, -18000)] }
+
+/-- the hypothesis is not idle: where the wall clock skips midnight, `time.Date` (and the model with it)
+    returns an instant that does not read 00:00:00 – here 2021-03-13 23:00 local time -/
+example : ¬ Zone.Settled havana2021 18700 ∧
+    Zone.wall havana2021 (Zone.dateUnix havana2021 18700) = 18700 * 86400 - 3600 := by decide
 
 theorem C02_start_date_malformed (s : Str) (h : s.length ≠ 8) : parseStartDate (some s) = (false, 0) := by
   unfold parseStartDate
